@@ -102,37 +102,11 @@ func runC04(rc *RunCtx) {
 	refs := []string{"", "", c.Accs[0].Bech, c.Accs[2].Bech, "ref.jkl", "nobody.jkl", feeCol, "%%garbage", c.Accs[1].Bech}
 	refClass := []string{"none", "none", "acc0", "other", "name", "unresolvable", "blocked-module", "garbage", "acc1"}
 
-	n := 8 + rc.Intn(7)
-	for i := 0; i < n; i++ {
-		if rc.Chance(0.5) {
-			dt := []time.Duration{6 * time.Second, 24 * time.Hour, 20 * 24 * time.Hour, 400 * 24 * time.Hour}[rc.Intn(4)]
-			if _, err := c.NextBlock(dt); err != nil {
-				if _, ok := err.(*chain.PanicError); ok {
-					rc.Abort("BeginBlock panic (C05 territory): " + err.Error())
-				} else {
-					rc.Abort(err.Error())
-				}
-				return
-			}
-		}
-		if rc.Chance(0.25) {
-			c04PayOnce(rc, s, mod)
-			continue
-		}
-		payer := []int{0, 0, 1, poor}[rc.Intn(4)]
-		forAcc := payer
-		if rc.Chance(0.3) {
-			forAcc = rc.Intn(2)
-		}
-		bytes := sizes[rc.Intn(len(sizes))]
-		days := durs[rc.Intn(len(durs))]
-		ri := rc.Intn(len(refs))
-		msg := &storagetypes.MsgBuyStorage{Creator: c.Accs[payer].Bech, ForAddress: c.Accs[forAcc].Bech, DurationDays: days, Bytes: bytes, PaymentDenom: "ujkl", Referral: refs[ri]}
-		if rc.Chance(0.05) {
-			msg.PaymentDenom = "uatom"
-		}
+	// buy delivers one MsgBuyStorage and judges it against the pre-state
+	buy := func(payer, forAcc int, bytes, days int64, ri int, denom string, upper bool) {
+		msg := &storagetypes.MsgBuyStorage{Creator: c.Accs[payer].Bech, ForAddress: c.Accs[forAcc].Bech, DurationDays: days, Bytes: bytes, PaymentDenom: denom, Referral: refs[ri]}
 		spell := "canonical"
-		if rc.Chance(0.15) {
+		if upper {
 			// the same account, spelled in upper case (valid bech32, same signer)
 			msg.Creator = strings.ToUpper(msg.Creator)
 			spell = "UPPER"
@@ -222,13 +196,13 @@ func runC04(rc *RunCtx) {
 				rc.Fail("C04/failed-purchase-changed-plan", "failed MsgBuyStorage changed the plan record")
 			}
 			rc.NonTrivial(fmt.Sprintf("buy/%s/%s/%s/%s/fail", tier, dcl, refClass[ri], planState))
-			continue
+			return
 		}
 		payerAddr := c.Accs[payer].Bech
 		D := df.Of(payerAddr, "ujkl").Neg()
 		if pricePanic || !priceKnown {
 			rc.Fail("C04/purchase-succeeded-without-price", "MsgBuyStorage succeeded although the keeper's price functions reject/panic on the pre-state")
-			continue
+			return
 		}
 		want := price
 		if referred {
@@ -254,7 +228,6 @@ func runC04(rc *RunCtx) {
 				escrow = a
 			}
 		}
-		_ = preGauges
 		allowed := map[string]bool{payerAddr: true, pol: true, mod: true}
 		if escrow == "" {
 			// legitimate when the provider share is 0% (ref+pol = 100) or rounds to zero
@@ -266,6 +239,7 @@ func runC04(rc *RunCtx) {
 			if !funded.Equal(rec) {
 				rc.Fail("C04/gauge-funding-vs-record", "gauge records %s but its account received %s", rec, funded)
 			}
+			c04NewGauge(rc, c, preGauges, postGauges, escrow, refAddr)
 			credits = credits.Add(funded)
 		}
 		within1 := func(got sdk.Int, pct int64) (bool, sdk.Int) {
@@ -318,6 +292,46 @@ func runC04(rc *RunCtx) {
 		}
 		rc.NonTrivial(fmt.Sprintf("buy/%s/%s/%s/%s/%s", tier, dcl, refClass[ri], planState, outcome))
 	}
+
+	n := 8 + rc.Intn(7)
+	for i := 0; i < n; i++ {
+		if rc.Chance(0.5) {
+			dt := []time.Duration{6 * time.Second, 24 * time.Hour, 20 * 24 * time.Hour, 400 * 24 * time.Hour}[rc.Intn(4)]
+			if _, err := c.NextBlock(dt); err != nil {
+				if _, ok := err.(*chain.PanicError); ok {
+					rc.Abort("BeginBlock panic (C05 territory): " + err.Error())
+				} else {
+					rc.Abort(err.Error())
+				}
+				return
+			}
+		}
+		if rc.Chance(0.25) {
+			c04PayOnce(rc, s, mod)
+			continue
+		}
+		if rc.Chance(0.12) {
+			// burst: 3-4 purchases in one block with the same price and end time (different buyers, same size / duration,
+			// no referral): each must get a gauge of its own, funded with what it records
+			bytes := sizes[rc.Intn(len(sizes))]
+			days := durs[rc.Intn(len(durs))]
+			for _, p := range []int{0, 1, 2, 3}[:3+rc.Intn(2)] {
+				buy(p, p, bytes, days, 0, "ujkl", false)
+			}
+			rc.Count("equal_purchase_bursts", 1)
+			continue
+		}
+		payer := []int{0, 0, 1, poor}[rc.Intn(4)]
+		forAcc := payer
+		if rc.Chance(0.3) {
+			forAcc = rc.Intn(2)
+		}
+		denom := "ujkl"
+		if rc.Chance(0.05) {
+			denom = "uatom"
+		}
+		buy(payer, forAcc, sizes[rc.Intn(len(sizes))], durs[rc.Intn(len(durs))], rc.Intn(len(refs)), denom, rc.Chance(0.15))
+	}
 	rc.Sample(map[string]interface{}{"ref": g.ref, "pol": g.pol, "feed": feed, "trace_tail": tail(rc.Trace(), 6)})
 }
 
@@ -339,6 +353,14 @@ func c04PayOnce(rc *RunCtx, s *SW, mod string) {
 	maxp := int64(1 + rc.Intn(4))
 	// blocks ahead: below a day (14399), exactly a day (14400), above, far future
 	ahead := []int64{1, 14_399, 14_400, 14_401, 100_000, 5_256_000, 50_000_000}[rc.Intn(7)]
+	if rc.Chance(0.15) {
+		// burst: 3-4 different files, same declared size / replication / expiry, same block: equal price and end time
+		for k := 0; k < 3+rc.Intn(2); k++ {
+			c04PayOncePost(rc, s, mod, owner, gen.NewFile(randBytes(rc.Rng, int64(1+rc.Intn(3000))), 1024), size, maxp, ahead)
+		}
+		rc.Count("equal_payonce_bursts", 1)
+		return
+	}
 	if c04PayOncePost(rc, s, mod, owner, f, size, maxp, ahead) && rc.Chance(0.35) {
 		// the same merkle again in the same block (same key, same expiry), declared bigger: a new purchase, charged in full
 		c04PayOncePost(rc, s, mod, owner, f, size*int64(2+rc.Intn(1000)), int64(1+rc.Intn(4)), ahead)
@@ -365,6 +387,7 @@ func c04PayOncePost(rc *RunCtx, s *SW, mod string, owner int, f *gen.File, size,
 	})
 	pre := c.Snapshot()
 	preSup := c.Supply()
+	preGauges := gaugeAddrs(mustObs(s))
 	r := c.DeliverAs(owner, &storagetypes.MsgPostFile{Creator: c.Accs[owner].Bech, Merkle: f.Root(), FileSize: size, MaxProofs: maxp, Expires: expires, Note: "{}"})
 	post := c.Snapshot()
 	df := chain.Diff(pre, post)
@@ -412,6 +435,7 @@ func c04PayOncePost(rc *RunCtx, s *SW, mod string, owner int, f *gen.File, size,
 		if rec := gs[escrow].Coins.AmountOf("ujkl"); !funded.Equal(rec) {
 			rc.Fail("C04/gauge-funding-vs-record", "pay-once gauge records %s but its account received %s", rec, funded)
 		}
+		c04NewGauge(rc, c, preGauges, gs, escrow, "")
 		credits = funded
 	} else if D.IsPositive() {
 		// a zero-amount gauge is possible when the price rounds to zero; otherwise the debit must fund a gauge
@@ -430,6 +454,27 @@ func c04PayOncePost(rc *RunCtx, s *SW, mod string, owner int, f *gen.File, size,
 	}
 	rc.NonTrivial("payonce/" + dcl + "/ok")
 	return true
+}
+
+// c04NewGauge: "the new provider gauge is funded with exactly the amount it records" - the payment must have created a
+// gauge record of its own (not topped up the escrow account of an earlier gauge, whose record would then understate
+// what the account holds), and right after the payment the escrow account holds exactly the recorded coins (nothing
+// is released within the transaction). An escrow that is also the named referrer is left out (it legitimately gets
+// the commission on top).
+func c04NewGauge(rc *RunCtx, c *chain.Chain, pre, post map[string]storagetypes.PaymentGauge, escrow, refAddr string) {
+	if _, old := pre[escrow]; old {
+		rc.Fail("C04/payment-funded-an-existing-gauge", "the provider share went to the escrow account of a gauge that existed before the payment (%d gauge records before, %d after): no new gauge was created for it", len(pre), len(post))
+		return
+	}
+	if len(post) != len(pre)+1 {
+		rc.Fail("C04/gauge-count", "a payment with a provider share changed the number of gauge records from %d to %d", len(pre), len(post))
+	}
+	if escrow == refAddr {
+		return
+	}
+	if bal, rec := c.Balance(escrow, "ujkl"), post[escrow].Coins.AmountOf("ujkl"); !bal.Equal(rec) {
+		rc.Fail("C04/gauge-balance-vs-record", "new gauge records %s but its escrow account holds %s", rec, bal)
+	}
 }
 
 func failLog(r chain.TxResult) string {
